@@ -117,7 +117,26 @@ var FieldDeepEqualContainer = `
 	{{- $src := .GenID "_src"}}
 	{{- $idx := "i"}}
 	{{- if eq .Type.Category.String "Map" }}{{$idx = "k"}}{{end}}
+	{{- $ctx := (.ValCtx.WithTarget "v").WithSource $src}}
+	{{- if and .ValCtx.Type.Category.IsStructLike Features.ValueTypeForSIC}}
+	{{- $ctx = $ctx.WithSource (printf "&%s" $src)}}
+	{{- end}}
 	for {{$idx}}, v := range {{.Target}} {
+		{{- if and (eq .Type.Category.String "Map") .KeyCtx.Type.Category.IsStructLike}}
+		{{- /* struct-like keys are pointers: look the key up by value */}}
+		ok := false
+		for sk, {{$src}} := range {{.Source}} {
+			if !{{$idx}}.DeepEqual(sk) {
+				continue
+			}
+			ok = true
+			{{- template "FieldDeepEqual" $ctx}}
+			break
+		}
+		if !ok {
+			return false
+		}
+		{{- else}}
 		{{- if eq .Type.Category.String "Map" }}
 		{{$src}}, ok := {{.Source}}[{{$idx}}]
 		if !ok {
@@ -126,11 +145,8 @@ var FieldDeepEqualContainer = `
 		{{- else}}
 		{{$src}} := {{.Source}}[{{$idx}}]
 		{{- end}}
-		{{- $ctx := (.ValCtx.WithTarget "v").WithSource $src}}
-		{{- if and .ValCtx.Type.Category.IsStructLike Features.ValueTypeForSIC}}
-		{{- $ctx = $ctx.WithSource (printf "&%s" $src)}}
-		{{- end}}
 		{{- template "FieldDeepEqual" $ctx}}
+		{{- end}}
 	}
 {{- end}}{{/* "FieldDeepEqualContainer" */}}
 `
